@@ -281,6 +281,19 @@ func (r *Route) goodRegexString(n, v string) {
 	}
 }
 
+// check compiled regex of the route path.
+//
+// the i-th submatch is saved to the i-th path var name, so the number of
+// capturing groups must equal to the number of path vars.
+func (r *Route) goodRegex() {
+	if num := r.regex.NumSubexp(); num != len(r.matches) {
+		goutil.Panicf(
+			"invalid route path '%s': has %d capturing group(s) but %d path var(s), please use non-capturing group '(?:...)'",
+			r.path, num, len(r.matches),
+		)
+	}
+}
+
 // check start string and match a regex route
 func (r *Route) match(path string) (ps Params, ok bool) {
 	// check start string
